@@ -28,9 +28,11 @@ ASSUMPTIONS = [
     'are outside the alphabet; font-relative units (em, ex) excluded',
     'length registers are assigned with the primitive form \\zzL=1in\\relax (plasTeX\'s \\setlength is a no-op, outside the anchor)',
     'visible text is compared with whitespace removed',
-    'thorough tier, depth-4 part only: cases run as consecutive \\ifthenelse of one interpreter session (fresh session '
-    'after a timeout or when the context stack changed; input stack cleared and class-level state restored after an '
-    'exception); every candidate violation is re-judged in a fresh isolated document',
+    'tree cases marked "session" (depth 3 in the quick tier, depth 4 in the thorough tier) run as consecutive \\ifthenelse of '
+    'one document per block, each observed on its own output fragment; after the evaluator\'s IndexError the input stack is '
+    'cleared and \\( \\) re-enabled, after any other exception or a timeout a new document is started; every candidate '
+    'violation is re-judged in a fresh isolated document.  All other cases (atoms, spellings, nested, loops, trees of depth <= 2 '
+    'quick / <= 3 thorough) get a fresh interpreter with class-level state restored',
 ]
 
 WS = re.compile(r'\s+')
@@ -136,11 +138,18 @@ class Session(object):
             self.tex = None
             return 'timeout'
         except Exception as e:
+            name = type(e).__name__
             del tex.inputs[:]
-            state.reset()
-            if len(tex.ownerDocument.context.contexts) != self.depth:
-                self.tex = None
-            return 'raises:%s' % type(e).__name__
+            if name == 'IndexError':
+                # the evaluator's "pop from empty list" is raised after argument parsing, by code without
+                # side effects; \ifthenelse had switched \( \) off and never got to switch them on again
+                from plasTeX.Base.LaTeX.Math import BeginMath, EndMath
+                BeginMath.disableMath = EndMath.disableMath = False
+                if len(tex.ownerDocument.context.contexts) != self.depth:
+                    self.tex = None
+            else:
+                self.tex = None         # anything else: start over (new_tex() restores class-level state)
+            return 'raises:%s' % name
 
 
 # ---------------------------------------------------------------------------
@@ -268,12 +277,25 @@ def classify(case, obs):
 
 
 def limit_for(case):
-    return 2.0 if case['part'] == 'W' else 5.0
+    return 2.0 if case['part'] == 'W' else 20.0
+
+
+CONFIRM_LIMIT = 12.0
+
+
+def observe_case(case, full_preamble=False):
+    """Observation of a case in a fresh document.  A loop that hits the short limit is run again with a long
+    one, so that a busy machine is not mistaken for an endless loop."""
+    src = case_source(case, full_preamble)
+    obs = observe(src, limit_for(case))
+    if obs == 'timeout' and limit_for(case) < CONFIRM_LIMIT:
+        obs = observe(src, CONFIRM_LIMIT)
+    return obs
 
 
 def replay(case):
     src = case_source(case)
-    obs = observe(src, limit_for(case))
+    obs = observe_case(case)
     v, fids, exp = classify(case, obs)
     res = {'verdict': v, 'expected': exp, 'observed': obs, 'input': src, 'detail': ''}
     if v == 'known':
@@ -404,10 +426,10 @@ def run_case(rep, case, session=None, nontrivial=True):
         if obs != exp:
             v, fids, exp = classify(case, obs)
             if v == 'violation':            # re-judge in isolation before believing the session
-                obs = observe(case_source(case, full_preamble=True), limit_for(case))
+                obs = observe_case(case, full_preamble=True)
                 rep.count('session_rejudged')
     else:
-        obs = observe(case_source(case), limit_for(case))
+        obs = observe_case(case)
     if obs == exp:
         v, fids = 'ok', []
     else:
@@ -417,11 +439,24 @@ def run_case(rep, case, session=None, nontrivial=True):
     return obs, v
 
 
-CUT = 12        # a block that already holds this many violation candidates stops (the run fails anyway)
+CUT = 6             # a block that already holds this many violation candidates stops (the run fails anyway)
+STOP_AFTER = 60     # ... and once this many were seen in the whole run the remaining blocks are skipped
+_STOP = None        # multiprocessing.Value shared through fork
 
 
 def run_block(block):
     rep = core.Report()
+    if _STOP is not None and _STOP.value >= STOP_AFTER:
+        rep.count('blocks_skipped_after_violations')
+        return rep.close_block()
+    _run_block(block, rep)
+    if _STOP is not None and rep.nviolations:
+        with _STOP.get_lock():
+            _STOP.value += rep.nviolations
+    return rep.close_block()
+
+
+def _run_block(block, rep):
     tag = block[0]
     if tag == 'A':
         _, lo, hi, seed = block
@@ -506,7 +541,6 @@ def run_block(block):
                 rep.sample({'input': case_source(case), 'observed': obs})
     else:
         raise ValueError(block)
-    return rep.close_block()
 
 
 def run(tier, seed, rep):
@@ -528,12 +562,15 @@ def run(tier, seed, rep):
               'length_pairs_outside_alphabet': len(M.all_atoms()[1]),
               'spelling_product': {'leaf_classes': 2, 'depth': 2, 'trees': nP},
               'nested': {'outer_trees': nN, 'inner_trees': nN}}
-    # part T
-    blocks += tree_blocks('T', 4, 3, ('isolated', seed), 600)
-    bounds['trees_isolated'] = {'leaf_classes': 4, 'depth': 3, 'trees': M.count(4, 3)[0]}
+    # part T: "isolated" = one fresh document per case; "session" = consecutive conditionals of one document
+    iso_depth = 2 if quick else 3
+    blocks += tree_blocks('T', 4, iso_depth, ('isolated', seed), 600)
+    bounds['trees_isolated'] = {'leaf_classes': 4, 'depth': iso_depth, 'trees': M.count(4, iso_depth)[0]}
+    blocks += tree_blocks('T', 4, 3, ('session', seed), 600)
+    bounds['trees_session'] = [{'leaf_classes': 4, 'depth': 3, 'trees': M.count(4, 3)[0]}]
     if not quick:
         blocks += tree_blocks('T', 2, 4, ('session', seed), 6000)
-        bounds['trees_session'] = {'leaf_classes': 2, 'depth': 4, 'trees': M.count(2, 4)[0]}
+        bounds['trees_session'].append({'leaf_classes': 2, 'depth': 4, 'trees': M.count(2, 4)[0]})
     # part W
     wcfg = [(6, 2)] if quick else [(6, 2), (3, 3)]
     bounds['whiledo'] = []
@@ -543,8 +580,13 @@ def run(tier, seed, rep):
         bounds['whiledo'].append({'leaf_menu': nleaf, 'depth': depth, 'trees': M.count(nleaf, depth)[0],
                                   'bound_N': '0..6', 'max_iterations': M.LOOP_CAP})
     blocks = core.rotate(blocks, seed)
+    global _STOP
+    import multiprocessing
+    _STOP = multiprocessing.get_context('fork').Value('i', 0)
     core.merge_all(run_block, blocks, rep)
-    return {'exhaustive': True, 'bounds': bounds, 'blocks': len(blocks),
+    complete = not rep.counters.get('blocks_skipped_after_violations') and \
+        not rep.counters.get('block_cut_short_after_violations')
+    return {'exhaustive': complete, 'bounds': bounds, 'blocks': len(blocks),
             'floors': {'evaluations': 150000 if quick else 3000000, 'then_taken': 20000, 'else_taken': 20000,
                        'shape_not_after_operator': 10000, 'shape_redundant_group': 10000,
                        'loop_iterations_6': 50, 'loop_iterations_0': 50, 'spelling_cases': 2000}}
